@@ -65,6 +65,11 @@ class VEngine(Engine):
     def safety_item(self, base, st, node):
         pass
 
+    def lookup_state_has_key(self, ref, key):
+        """'key in d' for a constant key: a boolean of the dictionary's state (named by its path), so that contracts can say
+        which keys are present (haskey(d, 'k'))."""
+        return z3.Bool("%s.#has[%r]" % (ref, key))
+
     def localise_spec(self, spec, b, st):
         if spec.get("arrspec"):
             nd, shp, dt, ext = spec["arrspec"]
@@ -175,12 +180,14 @@ class VEngine(Engine):
 
     # ------------------------------------------------------------------
     def verify(self, qual):
-        fi = self.index.find(qual)
+        # "qual#variant": one of several contracts (instances, e.g. a fixed dimension) on the same function
+        fi = self.index.find(qual.split("#")[0])
         if fi is None:
             raise Undecided("function %s not found in the current source" % qual)
         c = self.registry.get(qual)
         if c is None:
             raise Undecided("no contract for %s" % qual)
+        self.variant = qual.split("#")[1] if "#" in qual else None
         self.func = fi
         self.cur_contract = c
         self.frame_cls = [fi.cls]
@@ -276,6 +283,8 @@ class VEngine(Engine):
                 prefixes.append(v.ref)
         changed = []
         for k, v in post.env.items():
+            if k.startswith("#undef:"):
+                continue
             if k.startswith("#ver:"):
                 pk = k[5:]
                 if pk.startswith("$") or not is_heap(pk):
@@ -305,15 +314,17 @@ class VEngine(Engine):
             self.oblige("frame::%s" % k, post, goal, "frame", False, (), fi.node)
 
     def check_raises(self, c, fi, raises):
+        RP = tuple(getattr(c, "raise_props", None) or ("C10",))
+        RP9 = tuple(getattr(c, "raise_props", None) or ("C10", "C09"))
         for i, x in enumerate(raises):
             for exc_cls, cl in c.exc_classes:
                 if x.exc != exc_cls:
                     cond = self.eval_clause(cl, x.st, pre=self.entry_state, polarity=-1)
-                    self.oblige("raise::%s@%s::%s" % (x.exc, getattr(x, "tag", "?"), cl.name), x.st, z3.Not(cond), "raises", True, cl.props or ("C10",), fi.node, cl)
+                    self.oblige("raise::%s@%s::%s" % (x.exc, getattr(x, "tag", "?"), cl.name), x.st, z3.Not(cond), "raises", True, cl.props or RP, fi.node, cl)
             allowed = [rs for rs in c.raises if exc_matches(x.exc, rs.exc) or exc_matches(rs.exc, x.exc) and x.exc in ("Exception",)]
             name = "raise::%s@%s" % (x.exc, getattr(x, "tag", None) or (x.where or "?").split(":")[-1])
             if not allowed:
-                self.oblige("no-" + name, x.st, z3.BoolVal(False), "raises", True, ("C10", "C09"), fi.node)
+                self.oblige("no-" + name, x.st, z3.BoolVal(False), "raises", True, RP9, fi.node)
                 continue
             conds = []
             for rs in allowed:
@@ -321,15 +332,15 @@ class VEngine(Engine):
                     conds.append(self.truth(self.ev_spec(rs.when, x.st, pre=self.entry_state, polarity=1)))
                 else:
                     conds.append(z3.BoolVal(True))
-            self.oblige(name + "::allowed", x.st, z3.Or(*conds), "raises", False, ("C10", "C09"), fi.node)
+            self.oblige(name + "::allowed", x.st, z3.Or(*conds), "raises", False, RP9, fi.node)
             for rs in allowed:
                 for cl in rs.ensures:
                     g = self.eval_clause(cl, x.st, pre=self.entry_state, polarity=1)
                     w = self.truth(self.ev_spec(rs.when, x.st, pre=self.entry_state, polarity=-1)) if rs.when is not None else z3.BoolVal(True)
-                    self.oblige("%s::%s" % (name, cl.name), x.st, z3.Implies(w, g), "raises", cl.top, cl.props or ("C10",), fi.node, cl)
+                    self.oblige("%s::%s" % (name, cl.name), x.st, z3.Implies(w, g), "raises", cl.top, cl.props or RP, fi.node, cl)
             for cl in c.exc_ensures:
                 g = self.eval_clause(cl, x.st, pre=self.entry_state, polarity=1)
-                self.oblige("%s::%s" % (name, cl.name), x.st, g, "raises", cl.top, cl.props or ("C10",), fi.node, cl)
+                self.oblige("%s::%s" % (name, cl.name), x.st, g, "raises", cl.top, cl.props or RP, fi.node, cl)
 
 
 def verify_function(index, registry, qual, models=None, pid=None):
